@@ -313,6 +313,9 @@ func CheckGame(sc *Scenario, out *GameOut, res *RunResult) {
 			if m.AllottedNs > remainNs {
 				res.addViolation("C13", "budget_exceeds_remaining", fmt.Sprintf("%q on %s: engine allots %d ms but only %d ms remain", m.Go, m.Fen, m.AllottedNs/1_000_000, m.RemainMs))
 			}
+			if bad := allotmentRepeatedFits(m.AllottedNs, remainNs, m.IncMs*1_000_000, m.MovesToGo); bad != "" {
+				res.addViolation("C13", "budget_repeated_does_not_fit", fmt.Sprintf("%q on %s: %s", m.Go, m.Fen, bad))
+			}
 		}
 		// observed view: only searches ended by their own timer are samples
 		if m.ByTimer {
@@ -324,6 +327,20 @@ func CheckGame(sc *Scenario, out *GameOut, res *RunResult) {
 		}
 	}
 	res.count("game_moves", int64(len(out.Moves)))
+}
+
+// allotmentRepeatedFits: the time allotted to a move, repeated for the
+// announced moves-to-go (at least 15 moves when none is announced), must fit
+// into the mover's remaining time plus the increments the mover receives.
+func allotmentRepeatedFits(allottedNs, remainNs, incNs int64, mtg int) string {
+	n := int64(mtg)
+	if n == 0 {
+		n = 15
+	}
+	if allottedNs*n > remainNs+n*incNs {
+		return fmt.Sprintf("%d ms allotted x %d moves = %d ms exceeds remaining %d ms + %d increments of %d ms", allottedNs/1_000_000, n, allottedNs*n/1_000_000, remainNs/1_000_000, n, incNs/1_000_000)
+	}
+	return ""
 }
 
 // BudgetSequenceCheck follows the engine's own allotments (H9) through the
